@@ -166,3 +166,14 @@ package writecache
 //@   callee (*writecache.cache).delete
 //@   pureeffect
 //@   requires [cached_copy_dropped_only_after_storage_accepted_it] flushedToStorage()
+
+// ---- C09: removing an object from the cache is decided by the file tree alone: apart from
+// the read-only refusal, Delete answers exactly what removing the cached file answered
+// ("not found" only when there is no cached copy - the shard then drops the metadata and
+// the blob; a cached copy that silently survives would be flushed back later).
+//@ func (*cache).Delete
+//@   property C09
+//@   ensures [answer_is_the_file_trees_unless_read_only] err != ErrReadOnly ==> resultOf(err, "(*writecache.cache).delete")
+//@ func (*cache).delete
+//@   property C09
+//@   ensures [answer_is_the_file_trees] resultOf(err, "(*fstree.FSTree).Delete")
